@@ -33,7 +33,12 @@ pub enum Stop {
     Unspecified,
     /// a value exceeded the size cap of the harness (bulk cases only)
     TooBig,
+    /// the program read an input line that is not valid UTF-8 (C13 only; see INVALID_LINE)
+    InputError,
 }
+
+/// marker for "this input line is not valid UTF-8" (never generated as real input)
+pub const INVALID_LINE: &str = "\u{F8FF}\u{F8FF}invalid-utf8\u{F8FF}";
 
 #[derive(Clone, Debug, Default)]
 pub struct Flags {
@@ -60,6 +65,8 @@ pub struct Flags {
     pub stacks_above3_selected: usize,
     /// context of the first pop from an I/O stack (0, 1, 2): "main:<kind>", "main-multi:<kind>", "area", "area-of-selecting-흑"
     pub first_io_pop: Option<String>,
+    /// outputs of values >= 2^32 that were passed over (only with `continue_unspecified`)
+    pub unspecified_outputs: usize,
 }
 
 #[derive(Clone, Debug)]
@@ -78,6 +85,8 @@ pub struct Model {
     pub touched: Vec<usize>,
     /// where in the current command we are (for classification only)
     pub ctx: String,
+    /// C13 only: on output of a value >= 2^32 go on with its low 32 bits (what is written is unspecified, whether the run ends is not)
+    pub continue_unspecified: bool,
 }
 
 /// split a text into lines, each keeping its terminator (as a real `read_line` does)
@@ -100,6 +109,7 @@ impl Model {
             size_cap9: usize::MAX,
             touched: Vec::new(),
             ctx: String::new(),
+            continue_unspecified: false,
         }
     }
 
@@ -132,7 +142,13 @@ impl Model {
                     let f = v.floor().unwrap();
                     let code = match f.to_u64() {
                         Some(c) if c < (1u64 << 32) => c,
-                        _ => return Err(Stop::Unspecified),
+                        _ => {
+                            if !self.continue_unspecified {
+                                return Err(Stop::Unspecified);
+                            }
+                            self.flags.unspecified_outputs += 1;
+                            f.to_limbs().1[0] as u64
+                        }
                     };
                     match char::from_u32(code as u32) {
                         Some(ch) => ch.to_string(),
@@ -174,6 +190,7 @@ impl Model {
                 if idx == 0 && self.stacks.get(&0).map(|s| s.is_empty()).unwrap_or(true) {
                     self.flags.input_reads += 1;
                     match self.input.pop_front() {
+                        Some(line) if line == INVALID_LINE => return Err(Stop::InputError),
                         Some(line) => {
                             let st = self.stacks.entry(0).or_default();
                             for c in line.chars().rev() {
@@ -338,7 +355,17 @@ pub struct RunResult {
 }
 
 pub fn run_model(cmds: &[MCmd], stdin: &str, budget: usize, size_cap9: usize, per_step: bool) -> RunResult {
-    let mut m = Model::new(cmds.to_vec(), stdin);
+    run_model_lines(cmds, split_lines(stdin), budget, size_cap9, per_step)
+}
+
+pub fn run_model_lines(cmds: &[MCmd], lines: VecDeque<String>, budget: usize, size_cap9: usize, per_step: bool) -> RunResult {
+    run_model_opts(cmds, lines, budget, size_cap9, per_step, false)
+}
+
+pub fn run_model_opts(cmds: &[MCmd], lines: VecDeque<String>, budget: usize, size_cap9: usize, per_step: bool, continue_unspecified: bool) -> RunResult {
+    let mut m = Model::new(cmds.to_vec(), "");
+    m.continue_unspecified = continue_unspecified;
+    m.input = lines;
     m.size_cap9 = size_cap9;
     let mut loc = 0usize;
     let mut steps = 0usize;
